@@ -5,11 +5,16 @@
    itself and stays excluded.) *)
 From Coq Require Import Bool List NArith ZArith Lia.
 From M Require Import RegModel RegProofs CmdModel CmdLayer.
+From M Require Generated.
 Import ListNotations.
 Local Open Scope N_scope.
 
 Definition lib_bits : N := 236.     (* 0xEC: bits 2 (error queue), 3 (QUES), 5 (ESB), 6 (MSS), 7 (OPER) *)
 Definition stb_user (s:st) (setb:bool) (b:N) : st * list ev := reg_bits s STB setb b.
+
+(* the mask is the union of the status-byte bits the translator printed from the library's headers on this run *)
+Lemma tie_lib_bits : lib_bits = fold_left N.lor Generated.gen_stb_bits 0.
+Proof. reflexivity. Qed.
 
 Lemma lib_bit_clear b j : N.land b lib_bits = 0 -> (j = 2 \/ j = 3 \/ j = 5 \/ j = 6 \/ j = 7) -> N.testbit b j = false.
 Proof.
